@@ -26,6 +26,19 @@ for s in sorted(os.listdir(root)):
     prop = re.sub(r'^r\d-', '', s)
     prop = re.sub(r'b?-\d+$', '', prop)
     notes = open(os.path.join(d, 'notes.md')).read() if os.path.exists(os.path.join(d, 'notes.md')) else ''
+    agent = {}
+    if os.path.exists(os.path.join(d, 'agent_meta.json')):
+        try:
+            agent = json.load(open(os.path.join(d, 'agent_meta.json')))
+        except Exception:
+            agent = {}
+    vt = os.path.join(d, 'verify.txt')
+    if s not in verify and os.path.exists(vt):
+        m = re.search(r'demo_without_change=(\d+) .* demo_with_change=(\d+) .* suite_with_change=(\d+)', open(vt).read())
+        if m:
+            verify[s] = dict(demo_without_change='pass' if m.group(1) == '0' else 'FAIL',
+                             demo_with_change='fail' if m.group(2) != '0' else 'PASSES',
+                             suite_with_change='pass' if m.group(3) == '0' else 'FAIL')
     needs = ''
     for l in notes.split('\n'):
         if re.search(r'(?i)\b(need|needs|needed|trigger|requires|only shows|manifest)', l):
@@ -49,10 +62,11 @@ for s in sorted(os.listdir(root)):
     if s in status_override:
         st = status_override[s]
     meta = dict(
-        id=s, breaks_property=prop, round=2 if s.startswith('r2-') else 1,
+        id=s, breaks_property=prop, round=int(s[1]) if re.match(r'r\d-', s) else 1,
+        clause=agent.get('clause', ''),
         origin='written by a fresh sub-agent in its own scratch worktree that was given only the property text (nothing from /verif)',
-        change=title, files_changed=files,
-        needs_to_manifest=needs or 'see notes.md',
+        change=agent.get('summary') or title, files_changed=files,
+        needs_to_manifest=agent.get('needs') or needs or 'see notes.md',
         demonstration='demo_test.go (package comet; fails with patch.diff applied, passes without)',
         confirmed_by_me=verify.get(s, {}),
         confirmed_how='tools/verify_seed.sh <dir>: scratch worktree of /repo HEAD under /tmp; go test of the demo without the change, with the change, then the whole unedited suite with the change (the baseline-flaky TestRerankerWithFlatIndex tolerated); worktree removed',
